@@ -92,6 +92,16 @@ CHECKS = {
              'else moves the counter, evaluated points are in the cube; real histories sliced by n_like_max from 0 upward check counter = '
              'logged calls, one batch per step, budget and return value.',
         note='Trusted: Lean kernel + standard axioms; harness/corerec.py + corechecks.py (outside instrumentation, abstraction of the real state); numerics (bounds, networks, likelihood values) are oracles: theorems hold for every oracle answer subject to the stated hypotheses (WF = proposals fresh, in the cube and inside their bound, i.e. C07; PhaseOK/TPhase = phase discipline of run()).', tech='Lean 4 proof (per-step accounting) + replay with call-logging likelihood', ref='DESIGN.md §3 C10'),
+    'C11': dict(
+        text='Lean 4 theorems: for every completion schedule of an abstract pool, gathering results by task index equals map (so pooled, '
+             'scalar and vectorised evaluation are the same function of the batch); `decide` theorems over effect tables regenerated from '
+             'sampler.py / pool.py / bounds: every read-only accessor, the checkpoint writers and the bound methods they reach assign no '
+             'attribute and draw no random number (transitively); pool.map is an ordered map; one generator from the seed. Partial: the OS '
+             'scheduler and multiprocessing are not modelled. Paired real runs (same seed twice, vectorised, pools of 2/3 workers with '
+             'scrambled completion, verbose, checkpoint file, accessor calls around every batch) compared bit-for-bit.',
+        note='Trusted: Lean kernel + standard axioms; harness/gen_c11.py (AST effect closure; aliasing through locals is not tracked), '
+             'harness/c11.py; multiprocessing.Pool.map returns results in input order; identical numpy calls give identical floats.',
+        tech='Lean 4 proof (schedule-independence of gather; decide over generated effect tables), partial; paired bit-identical runs', ref='DESIGN.md §3 C11'),
     'C12': dict(
         text='Lean 4 theorems: explored is monotone, sampling-phase operations freeze the bounds and only append (prefix relation on all '
              'three arrays), shells non-empty after exploration, the discard setter touches only derived counts, shows exactly the '
@@ -115,7 +125,7 @@ CHECKS = {
         tech='Lean 4 proof + AST translator + scripted-RNG exact differential', ref='DESIGN.md §3 C14'),
 }
 
-READY = ['C01', 'C02', 'C03', 'C05', 'C06', 'C07', 'C08', 'C09', 'C10', 'C12', 'C13', 'C14', 'C15', 'C16']
+READY = ['C01', 'C02', 'C03', 'C05', 'C06', 'C07', 'C08', 'C09', 'C10', 'C11', 'C12', 'C13', 'C14', 'C15', 'C16']
 
 PENDING_REASON = 'check under construction in this build round; not yet registered (see DESIGN.md §6 build order)'
 
